@@ -1127,7 +1127,7 @@ impl Property for P14 {
         // a big frame moved in uniform small pieces from its first to its last byte, on both sides
         let mut uniform_repeat = None;
         let (mut r_src, mut w_sink) = (r_src, w_sink);
-        if big && !r_fatal && !w_fatal && r.chance(1, 4) {
+        if big && !r_fatal && !w_fatal && r.chance(1, if tier == Tier::Thorough { 64 } else { 4 }) {
             r_src = vec![Step::Xfer(*r.pick(&[1u32, 1, 2, 7, 1448, 4096]))];
             w_sink = vec![Step::Xfer(*r.pick(&[1u32, 3, 1448, 4096, 65_536]))];
             uniform_repeat = Some(1u32 << 20);
